@@ -595,6 +595,14 @@ func checkCase(r *kit.Run, el *element, c Case, st *stats) {
 			}
 		}
 		err, pan := e.apply(t)
+		// the update list handed in belongs to whoever else holds it (a shallow copy of the
+		// element, a slice saved before the call): its entries are not rewritten in place
+		for i := 0; i < len(c.Upd); i++ {
+			if e.updBuf[i] != e.tmpl[i] {
+				viol("apply-exact/"+kind+"-update-list-rewritten-in-place", fmt.Sprintf("t=%d: entry %d of the update list the element was given is %v after the call, was %v", t, i, e.updBuf[i], e.tmpl[i]))
+				break
+			}
+		}
 		got := &direct[t]
 		e.snap(got)
 		if pan != nil {
